@@ -43,7 +43,7 @@ def _c12():
     ldl_or = "Ok <=> all leading principal minors != 0; then L D L' == A entrywise, Dinv*D == 1, D_k = m_k/m_(k-1), L pattern == reference fill, Lp = cumsum(Lnz), rows in range/no duplicates; else Err(ZeroPivot)"
     for k in range(8):
         add("c12_ldl3_p%d" % k, unit="qdldl::_etree + _factor_inner (numeric, unchecked indexing)", inst="GF(13), all values", bounds="n=3, off-diagonal pattern mask %d (all 8 enumerated), full diagonal" % k,
-            oracle=ldl_or, timeout=(2400 if k == 7 else 1200), **({} if k in (7, 5, 2) else {"rot": True}))
+            oracle=ldl_or, timeout=(3600 if k == 7 else 1200), **({"tier": "thorough"} if k == 7 else {} if k in (5, 2) else {"rot": True}))
     add("c12_ldl3_p7_nodiag1", unit="qdldl::_etree + _factor_inner", inst="GF(13)", bounds="n=3 dense off-diagonals, missing diagonal entry (1,1)", oracle=ldl_or, rot=True)
     add("c12_ldl3_p5_nodiag2", unit="qdldl::_etree + _factor_inner", inst="GF(13)", bounds="n=3 mask 5, missing diagonal entry (2,2)", oracle=ldl_or, rot=True)
     # (mask 63, the dense 4x4 pattern, exceeds the 24 GB cap; mask 11 did not finish in an hour: not registered)
@@ -443,8 +443,8 @@ PROPS["C10"] = {
         ("c10_exact_nn2_2sweeps", dict(stubs=True, tier="thorough", unit=_EQ_UNIT, inst="GF(13)", bounds="cones [NN2], 2 sweeps", oracle=_EQ_OR, timeout=7200, mem_gb=24)),
         ("c10_exact_nn1_soc2_1sweep", dict(stubs=True, unit=_EQ_UNIT, inst="GF(13)", bounds="cones [NN1,SOC2], 1 sweep (rectification)", oracle=_EQ_OR, timeout=2400, mem_gb=20)),
         ("c10_disabled", dict(stubs=True, nofloat=True, unit="DefaultProblemData::equilibrate", inst="f64 every bit pattern", bounds="n=m=2", oracle="equilibrate_enable=false: P,q,A,b bit-unchanged, identity scaling", timeout=1200)),
-        ("c10_zero_rows_cols", dict(stubs=True, nofloat=True, unit="DefaultProblemData::equilibrate", inst="f64", bounds="n=m=2, empty column 1 of [P;A], empty row 1 of A, 2 sweeps", oracle="d[1] == e[1] == 1 exactly", timeout=1800, mem_gb=20)),
-        ("c10_bounds_pow2_2sweeps", dict(stubs=True, nofloat=True, unit=_EQ_UNIT, inst="f64: data entries are powers of two with symbolic exponent in [-40,40] (24 orders of magnitude), default bounds 1e-4 / 1e4", bounds="n=m=1, 2 Ruiz sweeps", timeout=3000, mem_gb=28,
+        ("c10_zero_rows_cols", dict(stubs=True, nofloat=True, tier="thorough", unit="DefaultProblemData::equilibrate", inst="f64", bounds="n=m=2, empty column 1 of [P;A], empty row 1 of A, 2 sweeps", oracle="d[1] == e[1] == 1 exactly", timeout=1800, mem_gb=20)),
+        ("c10_bounds_pow2_2sweeps", dict(stubs=True, nofloat=True, tier="thorough", unit=_EQ_UNIT, inst="f64: data entries are powers of two with symbolic exponent in [-40,40] (24 orders of magnitude), default bounds 1e-4 / 1e4", bounds="n=m=1, 2 Ruiz sweeps", timeout=3000, mem_gb=28,
             oracle="cumulative d, e, c stay within [min_scaling, max_scaling] (8 ulp slack)")),
         ("c10_bounds_pow2_3sweeps", dict(stubs=True, nofloat=True, tier="thorough", unit=_EQ_UNIT, inst="same", bounds="n=m=1, 3 sweeps", timeout=5400, mem_gb=32, oracle="same")),
         ("c10_rectify", dict(unit="rectify_equilibration of NonnegativeCone/ZeroCone/SecondOrderCone/ExponentialCone/PowerCone", inst="GF(13)", bounds="dim 3", oracle="scalar cones: delta=1,false; others: true and delta*e == mean(e) (constant)", timeout=1200)),
